@@ -857,7 +857,15 @@ int uv_cond_timedwait(uv_cond_t* cond, uv_mutex_t* mutex, uint64_t timeout) {
     abort();
   timeout += tv.tv_sec * NANOSEC + tv.tv_usec * 1e3;
 #else
-  timeout += uv__hrtime(UV_CLOCK_PRECISE);
+  {
+    uint64_t now;
+
+    now = uv__hrtime(UV_CLOCK_PRECISE);
+    if (timeout > UINT64_MAX - now)
+      timeout = UINT64_MAX;  /* Saturate, a wrapped deadline lies in the past. */
+    else
+      timeout += now;
+  }
 #endif
   ts.tv_sec = timeout / NANOSEC;
   ts.tv_nsec = timeout % NANOSEC;
